@@ -39,7 +39,7 @@ ASSUMPTIONS = [
     'Constants are the protocol defaults served by the node (hard_gas_limit_per_operation 1040000, hard_storage_limit_per_operation 60000).',
     'Fault injection adds little here (stated in DESIGN.md): most runs are fault-free; transient bursts and latency are sampled in a minority.',
 ]
-EXPECTED_PROBES = ['refilled_after_simulation_changed', 'address_only_client', 'batch_ge_20', 'custom_gas_reserve', 'batch_ge_8', 'tz4_judged', 'fee_varint_3_bytes', 'gas_near_hard_limit', 'large_payload', 'reveal_in_batch', 'internal_results']
+EXPECTED_PROBES = ['fee_on_varint_boundary', 'refilled_after_simulation_changed', 'address_only_client', 'batch_ge_20', 'custom_gas_reserve', 'batch_ge_8', 'tz4_judged', 'fee_varint_3_bytes', 'gas_near_hard_limit', 'large_payload', 'reveal_in_batch', 'internal_results']
 
 KINDS = ['transaction', 'transaction_kt', 'contract_call', 'reveal', 'delegation', 'origination', 'register_global_constant', 'transfer_ticket', 'smart_rollup_add_messages',
          'smart_rollup_execute_outbox_message']
@@ -87,6 +87,14 @@ def gen(seed, tier):
         'prebake': 1,
         'watch_only': rng.random() < 0.15,
     }
+    if key != 'tz4' and rng.random() < 0.08:
+        # boundary seeking: drive the chosen fee onto the 2-byte/3-byte boundary of the fee field (16383/16384)
+        spec = rng.choice([{'kind': 'contract_call', 'arg': 5, 'entrypoint': 'increment'}, {'kind': 'transaction', 'dest': cs.KT, 'amount': 0, 'param_len': rng.choice([0, 50])},
+                           {'kind': 'origination', 'storage_len': rng.choice([0, 128])}])
+        specs = [spec] if rng.random() < 0.6 else [spec, gen_spec(rng, 'transaction')]
+        steps = [{'op': 'new', 'g': 'g0', 'contents': specs, 'via': 'chain', 'sim_plan': [{'milligas': rng.choice([100_000_000, 150_000_000])}, {'milligas': 1_000_000}][: len(specs)]},
+                 {'op': 'seek_fee', 'g': 'g0', 'target': rng.choice([16384, 16384, 16383, 16385]), 'offsets': [-20, -10, -1, 0, 1, 10, 20]}]
+        return {'prop': ID, 'cfg': cfg, 'steps': steps}
     enabled = [k for k in KINDS if rng.random() < 0.6] or ['transaction']
     ngroups = rng.choice([1, 1, 2, 3]) if key != 'tz4' else 1
     steps = []
@@ -200,6 +208,8 @@ def oracle(world, info):
         world.bump(world.probes, 'tz4_judged')
     if zlen(fee) >= 3:
         world.bump(world.probes, 'fee_varint_3_bytes')
+    if 16380 <= fee <= 16388:
+        world.bump(world.probes, 'fee_on_varint_boundary')
     if gas >= 1_000_000:
         world.bump(world.probes, 'gas_near_hard_limit')
     if size >= 10_000:
